@@ -60,6 +60,28 @@ fn i128_total(r: &mut Rng) -> i128 {
 }
 
 pub fn inputs_c02(r: &mut Rng, n: usize, _tier: &str, out: &mut dyn Write) {
+    // boundary block: raw parts at the extreme and central century counts with nanoseconds at every whole number of
+    // centuries (0..5, the most a u64 holds) +/- 1 and at the u64 limit (a seeded change that mishandled
+    // (i16::MAX, k centuries) exactly was hit by only one of 20 000 random cases)
+    let mut n = n;
+    if n >= 1000 {
+        let npc = NPC as u64;
+        for c in [-32768i64, -32767, -2, -1, 0, 1, 32766, 32767] {
+            for k in 0..=5u64 {
+                for d in [-1i64, 0, 1] {
+                    let ns = (k * npc) as i128 + d as i128;
+                    if ns >= 0 && ns <= u64::MAX as i128 {
+                        writeln!(out, "from_parts {} {}", c, ns).unwrap();
+                        n -= 1;
+                    }
+                }
+            }
+            for ns in [u64::MAX, u64::MAX - 1] {
+                writeln!(out, "from_parts {} {}", c, ns).unwrap();
+                n -= 1;
+            }
+        }
+    }
     for _ in 0..n {
         match r.below(14) {
             0 | 1 => writeln!(out, "from_total {}", i128_total(r)).unwrap(),
